@@ -46,6 +46,16 @@ UNIT = {
                 'final(env).mon@.wrong == old(env).mon@.wrong',
                 'final(env).mon@.commands <= old(env).mon@.commands + 1',
             ]}),
+        ('yash-semantics/src/trap/exit.rs', ['fn run_exit_trap'], {'rewrites': ['strip-async'],
+            'token_rewrites': [('env . traps . get_state ( Condition :: Exit ) . 0', 'verif_get_exit_state(env)'),
+                               ('run_trap ( env , Condition :: Exit , command , origin )', 'run_exit_action(env, Condition::Exit, command, origin)')],
+            'ensures': [
+                # the EXIT trap action, if it is a command, is run exactly once for the condition EXIT, with exactly that
+                # command; no other action is run here; without such a trap nothing happens
+                'exit_state(old(env)) matches Some(st) ==> (st.action matches Action::Command(c) ==> final(env).mon@.exit_runs == old(env).mon@.exit_runs.push((Condition::Exit, c.verif_id)))',
+                '!(exit_state(old(env)) matches Some(st) && st.action is Command) ==> final(env).mon@.exit_runs == old(env).mon@.exit_runs',
+                'final(env).mon@.runs == old(env).mon@.runs && final(env).mon@.commands == old(env).mon@.commands',
+            ]}),
         ('@raw', '}\n'),
     ],
 }
